@@ -181,6 +181,22 @@ class Theory:
     def may_set_field(self, st, fr, obj, attr) -> bool:
         return attr in st.sh
 
+    def coerce_field(self, st, attr, old: V, new: V) -> V:
+        """`self.x = {}` / `set()` / int-or-float: keep the declared shape of the field"""
+        if isinstance(old, DictV) and isinstance(new, KwV) and not new.d:
+            return DictV.empty(old.ksort, old.layout, ordered=old.stamp is not None)
+        if isinstance(old, SetV) and isinstance(new, SetV):
+            return SetV(new.mem, new.card, old.layout) if True else new
+        if isinstance(old, OptV) and isinstance(new, NoneV):
+            return OptV(z3.BoolVal(True), old.inner)
+        if isinstance(old, OptV) and isinstance(new, type(old.inner)):
+            return OptV(z3.BoolVal(False), new)
+        if isinstance(old, RefV) and isinstance(new, NoneV):
+            return RefV(NONE)
+        if type(old) is not type(new):
+            raise Unsupported(f"field {attr}: assigned {type(new).__name__}, declared {type(old).__name__}")
+        return new
+
     def sem_set_value(self, st, fr, place, sem, v):
         self._no("write to Semaphore._value")
 
@@ -359,7 +375,7 @@ class Theory:
                 st.assume(f)
         # 1. which locals / shared components does the body write?  (dry run from a generic state)
         mod_locals = [n for n in self.assigned_names(node.body + ([node.target] if is_for else [])) if True]
-        mod_locals = sorted(set(mod_locals) | set(self.method_mutated_locals(st, node.body)))
+        mod_locals = sorted(set(mod_locals) | set(self.method_mutated_locals(st, node.body)) | set(n for n in st.loc if n.startswith("$")))
         mod_shared = self._discover_writes(st, fr, node, it, mod_locals)
 
         def mk_generic(base: St, tag: str) -> Tuple[St, object]:
@@ -379,6 +395,7 @@ class Theory:
             return s, i
 
         # 2. invariant on entry
+        self.loop_head_check(st, f"{lname}:entry")
         for label, f in spec.inv(LoopCtx(st0, st, z3.IntVal(0), it, fr)):
             ip.require(st, f"loopinv-entry:{lname}:{label}", f, spec.props or None)
         # 3. arbitrary iteration
@@ -394,6 +411,7 @@ class Theory:
             fr.loop_no = fr_loop_no
             for s2, ex in res:
                 if ex.kind in (Exit.NORMAL, Exit.CONTINUE):
+                    self.loop_head_check(s2, f"{lname}:step")
                     for label, f in spec.inv(LoopCtx(st0, s2, i + 1, it, fr)):
                         ip.require(s2, f"loopinv-step:{lname}:{label}", f, spec.props or None)
                     if spec.variant is not None:
@@ -433,6 +451,9 @@ class Theory:
         return out
 
     def after_loop_havoc(self, s: St, st0: St, mod_shared) -> None:
+        pass
+
+    def loop_head_check(self, st: St, label: str) -> None:
         pass
 
     def _discover_writes(self, st: St, fr: Frame, node, it, mod_locals) -> List[str]:
